@@ -128,13 +128,15 @@ static bool pending_walk;        /* a traversal has been left unfinished */
 static bool fresh_insert, root_changed;
 static long valctr;
 static long ledger_mark;
-static int P;                    /* 1..4 = C01..C04, 11 = C11 */
+static int P;                    /* 1..4 = C01..C04, 11 = C11, 15 = C15 */
+static const char *OOMCTX = "-";  /* operation that last received an injected allocation failure */
 static uint64_t USALT;           /* salt: universe + ordering, so distinct-hashes of different configurations differ */
 
 static bool judge(const char *prop, const char *key, const char *fmt, ...) __attribute__((format(printf, 3, 4)));
 static bool judge(const char *prop, const char *key, const char *fmt, ...) {
     char msg[600]; va_list ap; va_start(ap, fmt); vsnprintf(msg, sizeof msg, fmt, ap); va_end(ap);
     abandon = true;
+    if (P == 15) { char k2[160]; snprintf(k2, sizeof k2, "oom:%s:%s", OOMCTX, key); vf_viol("C15", k2, "[after injected allocation failure in %s] %s", OOMCTX, msg); return true; }
     if (!strcmp(prop, VF.prop)) { vf_viol(prop, key, "%s", msg); return true; }
     vf_count("other_property_oracle_mismatch", 1);
     if (VF.verbose) fprintf(stderr, "  (other property %s %s: %s)\n", prop, key, msg);
@@ -189,6 +191,7 @@ static int walk_rec(qtreetbl_obj_t *o, qtreetbl_obj_t *lo, qtreetbl_obj_t *hi, w
     if (!o) { w->shape = w->shape * 1099511628211ULL ^ 0x5f; return 0; }
     if (depth > 200) { w->why = "depth>200 (cycle?)"; return -1; }
     if (depth > w->height) w->height = depth;
+    if (!o->name || o->namesize == 0) { w->why = "node with NULL/empty key"; return -1; }
     w->nodes++;
     if (lo && MCMP(lo->name, lo->namesize, o->name, o->namesize) >= 0) { w->why = "search order (left bound)"; return -1; }
     if (hi && MCMP(o->name, o->namesize, hi->name, hi->namesize) >= 0) { w->why = "search order (right bound)"; return -1; }
@@ -284,14 +287,17 @@ static void op_put(int id) {
     qtreetbl_obj_t *oldroot = T->root;
     bool r;
     vf_log("put[%s] k%d=%s v=%s", (const char *[]){"putobj", "put", "putstr", "putstrf"}[api], id, vf_hex(k->k, k->kl), vf_hex(VBUF, vl));
+    oom_begin();
     switch (api) {
     case 0: r = T->putobj(T, kb.p, kb.n, vb.p, vb.n); break;
     case 1: r = T->put(T, (char *)kb.p, vb.p, vb.n); break;
     case 2: r = T->putstr(T, (char *)kb.p, (char *)vb.p); break;
     default: r = T->putstrf(T, (char *)kb.p, "%s", (char *)vb.p); break;
     }
+    long hits = oom_end();
     cb_drop(&kb);
     unsigned char *vcopy = vf_xdup(vb.p, vb.n); cb_drop(&vb);
+    if (hits) { OOMCTX = "put"; if (!r) { hm_free(vcopy); after_mutation(oldroot); vf_count("oom_reported_failure", 1); return; } vf_count("oom_completed_despite_failure", 1); }
     bool isnew = m_put(id, vcopy, vl); hm_free(vcopy);
     vf_count(isnew ? "put_new" : "put_replace", 1);
     if (isnew) fresh_insert = true;
@@ -307,13 +313,16 @@ static void op_get(int id) {
     cbuf_t kb = cb_make(k->k, k->kl, P == 11 && rng_chance(&R, 1, 2));
     size_t sz = 777; void *d; errno = 0;
     vf_log("get[%d,newmem=%d] k%d", api, newmem, id);
+    oom_begin();
     switch (api) {
     case 0: d = T->getobj(T, kb.p, kb.n, &sz, newmem); break;
     case 1: d = T->get(T, (char *)kb.p, &sz, newmem); break;
     default: d = T->getstr(T, (char *)kb.p, newmem); sz = d ? strlen((char *)d) + 1 : 0; break;
     }
     int e = errno;
+    long hits = oom_end();
     cb_drop(&kb);
+    if (hits) { OOMCTX = "get"; if (!d) { vf_count("oom_reported_failure", 1); return; } vf_count("oom_completed_despite_failure", 1); }
     vf_count(f ? "get_hit" : "get_miss", 1);
     if (f) {
         if (!d) judge("C01", "get-miss", "get of present key %d returned NULL", id);
@@ -336,9 +345,12 @@ static void op_remove(int id) {
                inner = o && o->right != NULL; } }
     vf_log("remove[%d] k%d=%s", api, id, vf_hex(k->k, k->kl));
     errno = 0;
+    oom_begin();
     bool r = api ? T->remove(T, (char *)kb.p) : T->removeobj(T, kb.p, kb.n);
     int e = errno;
+    long hits = oom_end();
     cb_drop(&kb);
+    if (hits) { OOMCTX = "remove"; bool f0; m_find(k->k, k->kl, &f0); if (!r && f0) { after_mutation(oldroot); vf_count("oom_reported_failure", 1); return; } vf_count("oom_completed_despite_failure", 1); }
     bool m = m_remove(id);
     vf_count(m ? (inner ? "remove_inner_with_successor" : "remove_leaf_or_bottom") : "remove_absent", 1);
     if (m && wasroot) vf_count("remove_root", 1);
@@ -363,6 +375,18 @@ static void op_invalid(void) {
     vf_count("invalid_arg_calls", 4);
 }
 
+static void op_minmax(bool mx) {
+    size_t ns = 0; errno = 0;
+    vf_log("find_%s", mx ? "max" : "min");
+    oom_begin();
+    void *k = mx ? T->find_max(T, &ns) : T->find_min(T, &ns);
+    long hits = oom_end();
+    if (hits) { OOMCTX = mx ? "find_max" : "find_min"; if (!k) { vf_count("oom_reported_failure", 1); return; } vf_count("oom_completed_despite_failure", 1); }
+    if (MN == 0) { if (k) judge("C01", "find_minmax", "find_min/max on empty table returned a key"); }
+    else { ukey_t *e = &UK[ME[mx ? MN - 1 : 0].id]; if (!k || ns != e->kl || memcmp(k, e->k, ns)) judge("C01", "find_minmax", "find_%s returned %s", mx ? "max" : "min", vf_hex(k, k ? ns : 0)); }
+    free(k);
+}
+
 /* ------------------------------------------------------------------ C03 walks */
 static bool cmp_entry(const char *prop, const char *what, qtreetbl_obj_t *o, int mi) {
     ukey_t *k = &UK[ME[mi].id];
@@ -383,8 +407,13 @@ static void op_walk(int limit, bool newmem) {
     bool first = true;
     while (limit < 0 || i < limit) {
         vf_cpu_arm_prop("C03", "qtreetbl_getnext", 2000);
+        oom_begin();
+        errno = 0;
         bool r = T->getnext(T, &obj, newmem);
+        int ge = errno;
+        long hits = oom_end();
         vf_cpu_disarm();
+        if (hits) { OOMCTX = "getnext"; if (!r && ge == ENOMEM) { vf_count("oom_reported_failure", 1); pending_walk = true; return; } vf_count("oom_completed_despite_failure", 1); }
         if (first) {
             first = false;
             if (MN > 0) {
@@ -426,10 +455,13 @@ static void op_nearest(int id, bool newmem, int cont, int stop) {
     vf_log("nearest[newmem=%d,cont=%d/%d] probe k%d=%s n=%d pending=%d", newmem, cont, stop, id, vf_hex(k->k, k->kl), MN, pending_walk);
     vf_cpu_arm_prop("C04", "qtreetbl_find_nearest", 2000);
     errno = 0;
+    oom_begin();
     qtreetbl_obj_t obj = T->find_nearest(T, kb.p, kb.n, newmem);
     int e = errno;
+    long hits = oom_end();
     vf_cpu_disarm();
     cb_drop(&kb);
+    if (hits) { OOMCTX = "find_nearest"; if (obj.name == NULL && obj.data == NULL && e == ENOMEM) { vf_count("oom_reported_failure", 1); return; } vf_count("oom_completed_despite_failure", 1); }
     vf_count(cls, 1); vf_count("probes", 1);
     if (P == 4) vf_distinct("distinct", (structure_check(false) ^ USALT) * 131 + (uint64_t)id);
     if (root_changed) vf_count("probes_after_root_change", 1);
@@ -471,8 +503,8 @@ static void op_nearest(int id, bool newmem, int cont, int stop) {
 /* oracles after every mutation / operation depending on the property under test */
 static void after_op(bool mutated, int every) {
     if (abandon) return;
-    if (P == 1 || P == 11) { if (every <= 1 || (vf_cur_op % every) == 0) content_check(); }
-    if (P == 2 || P == 11) { uint64_t s = structure_check(true); if (s) vf_distinct("distinct", s); }
+    if (P == 1 || P == 11 || P == 15) { if (every <= 1 || (vf_cur_op % every) == 0) content_check(); }
+    if (P == 2 || P == 11 || P == 15) { uint64_t s = structure_check(true); if (s) vf_distinct("distinct", s); }
     (void)mutated;
 }
 
@@ -708,14 +740,112 @@ static void big_history(long caseno, int n) {
     table_free(); m_clear(); universe_free();
 }
 
+/* ------------------------------------------------------------------ C15: allocation-failure enumeration
+ * for every shape of the exhaustive corpus (U keys) x every allocating operation x every key x
+ * failure at the k-th allocation (k = 1..K measured by a dry run; single failure and all-subsequent):
+ * the call must complete correctly or report failure with contents unchanged; invariants, a battery of
+ * normal operations and the ledger at free() are checked afterwards. */
+enum { OO_PUT, OO_REMOVE, OO_GET, OO_WALK, OO_NEAREST, OO_MIN, OO_MAX, OO_N };
+static const char *OON[] = {"put", "remove", "get(newmem)", "getnext(newmem)", "find_nearest(newmem)", "find_min", "find_max"};
+static void oom_do(int o, int id) {
+    switch (o) {
+    case OO_PUT: op_put(id); break;
+    case OO_REMOVE: op_remove(id); break;
+    case OO_GET: { ukey_t *k = &UK[id]; bool f; int p = m_find(k->k, k->kl, &f); size_t sz = 0; vf_log("getobj(newmem) k%d", id);
+        oom_begin(); void *d = T->getobj(T, k->k, k->kl, &sz, true); long hits = oom_end();
+        if (hits) { OOMCTX = "get"; if (!d) { vf_count("oom_reported_failure", 1); break; } vf_count("oom_completed_despite_failure", 1); }
+        if (f ? (!d || sz != ME[p].vl || memcmp(d, ME[p].v, sz)) : d != NULL) judge("C01", "get-wrong", "get(newmem) of key %d wrong", id);
+        free(d); break; }
+    case OO_WALK: op_walk(-1, true); break;
+    case OO_NEAREST: op_nearest(id, true, 0, 0); break;
+    case OO_MIN: op_minmax(false); break;
+    case OO_MAX: op_minmax(true); break;
+    }
+}
+static void oom_battery(void) {   /* normal operations afterwards must behave */
+    for (int i = 0; i < 6 && !abandon; i++) { int id = (int)rng_below(&R, (uint32_t)NU); uint32_t c = rng_below(&R, 4);
+        if (c == 0) op_put(id); else if (c == 1) op_remove(id); else if (c == 2) op_get(id); else op_walk(-1, false);
+        if (!abandon) { content_check(); if (!abandon) structure_check(true); } }
+}
+static void phase_oom(int U) {
+    int cfg = VF.shard;
+    ORDI = cfg % NORD;
+    int kcls = (cfg / NORD + cfg) % NKCLS;
+    long caseno = 2000000000L + cfg;
+    if (VF.only_case >= 0 && VF.only_case != caseno) return;
+    if (VF.only_case < 0 && VF.start_case > caseno) return;
+    rng_seed(&R, VF.seed, (uint64_t)caseno);
+    universe_make(&R, kcls, U);
+    vf_case_begin(caseno, "OOM enumeration over all shapes: U=%d ordering=%s keyclass=%s", NU, ORD[ORDI].name, KCLS[kcls]);
+    vf_sample("allocation-failure enumeration: every LLRB shape over %d keys (ordering=%s, key class=%s) x op{put,remove,get,getnext,find_nearest,find_min,find_max} x key x k-th allocation failing (single / all-subsequent)", NU, ORD[ORDI].name, KCLS[kcls]);
+    st_t *Q = hm_alloc(sizeof(st_t) * 1024); size_t qcap = 1024, qn = 0, qh = 0;
+    Q[qn].path = hm_alloc(1); Q[qn].len = 0; qn++;
+    SH = NULL; SHCAP = SHN = 0;
+    table_new(); sh_add(structure_check(false)); table_free();
+    while (qh < qn && vf_nviol < 30) {
+        st_t s = Q[qh++];
+        /* successors (no injection) */
+        for (int o = 0; o < 2 * NU; o++) {
+            int id = o % NU; bool rem = o >= NU;
+            table_new(); replay_path(s.path, s.len);
+            if (rem) { T->removeobj(T, UK[id].k, UK[id].kl); m_remove(id); } else { unsigned char v[2] = {1, 2}; T->putobj(T, UK[id].k, UK[id].kl, v, 2); m_put(id, v, 2); }
+            uint64_t sh = structure_check(false);
+            if (sh_add(sh)) { if (qn == qcap) { qcap *= 2; Q = vf_xrealloc(Q, sizeof(st_t) * qcap); }
+                Q[qn].path = hm_alloc((size_t)s.len + 1); memcpy(Q[qn].path, s.path, (size_t)s.len); Q[qn].path[s.len] = (unsigned char)(id | (rem ? 0x80 : 0)); Q[qn].len = s.len + 1; qn++; }
+            P = 0; table_free(); P = 15;
+        }
+        /* fault enumeration on this shape */
+        for (int o = 0; o < OO_N; o++) for (int id = 0; id < NU; id++) {
+            if ((o == OO_WALK || o == OO_MIN || o == OO_MAX) && id > 0) continue;
+            /* dry run to measure K */
+            table_new(); replay_path(s.path, s.len);
+            vf_case_begin(caseno, "OOM state#%zu pathlen=%d op=%s k%d (dry run)", qh - 1, s.len, OON[o], id);
+            oom_do(o, id);
+            long K = vf_oom_last_allocs;
+            if (o == OO_WALK) K = 2L * MN;     /* a complete walk with copies allocates twice per element */
+            table_free();
+            if (abandon) continue;
+            vf_max("max_allocations_in_one_call", K);
+            for (long k = 1; k <= K && k <= 24; k++) for (int all = 0; all < 2; all++) {
+                table_new(); replay_path(s.path, s.len);
+                vf_case_begin(caseno, "OOM state#%zu pathlen=%d op=%s k%d fail k=%ld %s", qh - 1, s.len, OON[o], id, k, all ? "all-subsequent" : "single");
+                { char pb[400]; int n = 0; for (int i = 0; i < s.len && n < 380; i++) n += snprintf(pb + n, sizeof pb - (size_t)n, "%c%d ", (s.path[i] & 0x80) ? '-' : '+', s.path[i] & 0x7f); pb[n] = 0; vf_log("path: %s", pb); }
+                if (o == OO_WALK) {   /* k counts allocations across the whole walk: fail inside the ceil(k/2)-th step */
+                    qtreetbl_obj_t obj; memset(&obj, 0, sizeof obj); long done = 0; int i = 0; bool reported = false;
+                    vf_log("walk(newmem) with allocation %ld failing", k);
+                    while (1) { long before = vf_alloc_calls; if (k - done >= 1 && k - done <= 2) { vf_oom_k = k - done; vf_oom_all = all; }
+                        oom_begin(); errno = 0; bool r = T->getnext(T, &obj, true); int ge = errno; long hits = oom_end(); done += vf_alloc_calls - before;
+                        if (hits) { OOMCTX = "getnext"; if (!r && ge == ENOMEM) { vf_count("oom_reported_failure", 1); reported = true; break; } vf_count("oom_completed_despite_failure", 1); }
+                        if (!r) break;
+                        if (i >= MN) { judge("C03", "walk-extra", "walk returned too many"); break; }
+                        bool ok = cmp_entry("C03", "walk-order", &obj, i); free(obj.name); free(obj.data); if (!ok) break; i++; }
+                    if (!abandon && !reported && i != MN) judge("C03", "walk-short", "walk under injected failure ended after %d of %d without reporting ENOMEM", i, MN);
+                } else { vf_oom_k = k; vf_oom_all = all; oom_do(o, id); }
+                vf_count("evaluations", 1); vf_count("fault_positions_injected", 1);
+                vf_distinct("distinct", (structure_check(false) ^ USALT) * 4099 + (uint64_t)(o * 64 + id) * 64 + (uint64_t)k * 2 + (uint64_t)all);
+                { char nm[64]; snprintf(nm, sizeof nm, "qtreetbl.%s", OON[o]); vf_name("operations_covered", nm); }
+                if (!abandon) { content_check(); if (!abandon) structure_check(true); }
+                if (!abandon) oom_battery();
+                table_free();
+                vf_san_poll();
+            }
+        }
+    }
+    vf_count("oom_shapes_enumerated", (long)qh);
+    for (size_t i = 0; i < qn; i++) hm_free(Q[i].path);
+    hm_free(Q); hm_free(SH); SH = NULL;
+    universe_free();
+}
+
 int main(int argc, char **argv) {
     vf_init(argc, argv, "h_tree");
     P = atoi(VF.prop + 1);
-    if (P != 1 && P != 2 && P != 3 && P != 4 && P != 11) { fprintf(stderr, "h_tree: unsupported property %s\n", VF.prop); return 2; }
+    if (P != 1 && P != 2 && P != 3 && P != 4 && P != 11 && P != 15) { fprintf(stderr, "h_tree: unsupported property %s\n", VF.prop); return 2; }
     vf_ledger_enable(true);
     int U = (int)vf_arg_long("universe", 9);
     long ncases = vf_arg_long("cases", 300);
     bool do_ex = vf_arg_long("exhaustive", 1) != 0;
+    if (P == 15) { phase_oom(U); return vf_finish() ? 1 : 0; }
     if (do_ex && (VF.only_case < 0 || VF.only_case >= 1000000000L)) phase_exhaustive(U);
     for (long c = 0; c < ncases; c++) if (vf_mine(c)) history(c);
     long nbig = vf_arg_long("big", 0);
